@@ -2514,7 +2514,7 @@ impl BuiltinCosts {
                     .cost(args[0].to_ex_mem(), args[1].to_ex_mem()),
             },
             DefaultFunction::WriteBits => {
-                let list = args[1].unwrap_list().unwrap();
+                let list = args[1].unwrap_list()?;
 
                 ExBudget {
                     mem: self.write_bits.mem.cost(
